@@ -3,7 +3,7 @@
 // harness: k_gc_drop_a props=C13,C14 fns=Buffer::gc,Buffer::trim_scrollback kind=bounded tier=thorough timeout=900 obligation="Buffer::gc+trim_scrollback(drain exactness, also when the iterator is dropped unconsumed)" bound="limit 0, 2 rows, 3 scrollback lines, width 1; symbolic trim flag and consume/drop"
 // harness: k_gc_drop_b props=C13,C14 fns=Buffer::gc,Buffer::trim_scrollback kind=bounded tier=thorough timeout=900 obligation=Buffer::gc+trim_scrollback bound="limit 1, 1 row, 3 scrollback lines"
 // harness: k_gc_drop_c props=C13,C14 fns=Buffer::gc,Buffer::trim_scrollback kind=bounded tier=thorough timeout=900 obligation=Buffer::gc+trim_scrollback bound="limit 2, 1 row, 3 scrollback lines"
-// harness: k_gc_drop_d props=C13,C14 fns=Buffer::gc,Buffer::trim_scrollback kind=bounded tier=thorough timeout=900 obligation=Buffer::gc+trim_scrollback bound="limit 11, 1 row, 3 scrollback lines (no trim)"
+// harness: k_gc_drop_d props=C13,C14 fns=Buffer::gc,Buffer::trim_scrollback kind=bounded tier=quick timeout=600 obligation=Buffer::gc+trim_scrollback bound="limit 11, 1 row, 3 scrollback lines (no trim)"
 // harness: k_gc_drop_e props=C01,C13,C14 fns=Buffer::gc,Buffer::trim_scrollback kind=bounded tier=quick timeout=600 obligation="Buffer::gc+trim_scrollback(soft vs hard limit: nothing trimmed up to the hard limit)" bound="soft 1 / hard 3 set directly, 1 row, 2 scrollback lines"
 // harness: k_gc_drop_f props=C01,C13,C14 fns=Buffer::gc,Buffer::trim_scrollback kind=bounded tier=thorough timeout=1800 obligation="Buffer::gc+trim_scrollback(soft vs hard limit: above the hard limit trimmed down to the soft limit)" bound="soft 1 / hard 3 set directly, 1 row, 4 scrollback lines"
 // harness: k_reflow_1x2_to_1 props=C01,C02,C10 fns=::reflow,Reflow<I>,Line::expand,Line::trailers kind=bounded tier=quick timeout=600 obligation="reflow/E1,E2,E3+logical text preserved" bound="1 line of width 2 -> width 1, every content over {blank, a} and every wrap-mark assignment (enumerated concretely)"
